@@ -16,7 +16,8 @@ import (
 // Job slow — C12 with clients that drain slowly.  The connections are synchronous pipes (a server Write
 // blocks until the client reads), so one client's response can still be in flight - sitting in the
 // server's transfer buffer - while other clients are served.  Every client reads its own file of a
-// distinct byte pattern; each response must be exactly that client's bytes.  Oracle-only (the per-client
+// distinct byte pattern with READ_FILE and READ_FILE_CRITICAL; every third round a stalled client reads a part of its
+// answer, drops the connection and comes back.  Each response must be exactly that client's bytes.  Oracle-only (the per-client
 // solo prediction is the file's own content).
 func init() { subcmds["slow"] = runSlow }
 
@@ -47,25 +48,44 @@ func runSlow(env *Env) error {
 			content Content
 			pending int64 // bytes of a response not read yet
 			poff    int64
+			plain   bool // the pending response is a READ_FILE answer: a 4-byte count, then the bytes
 		}
 		cl := make([]*client, k)
 		fail := func(msg string) { env.OracleFail(id, msg) }
 		ok := true
-		for c := 0; c < k && ok; c++ {
+		connect := func(c int) bool {
 			a, b := net.Pipe()
 			ls.Connect(b)
 			cl[c] = &client{c: a, content: r.Kids[c].Content}
 			a.SetDeadline(time.Now().Add(20 * time.Second))
 			q := &Req{Op: opOpenFile, Path: fmt.Sprintf("/f%d.bin", c)}
 			if _, err := a.Write(q.Wire()); err != nil {
-				ok = false
-				break
+				return false
 			}
 			res := make([]byte, 16)
 			if _, err := io.ReadFull(a, res); err != nil {
 				fail(fmt.Sprintf("[C12-slow] client %d: no OPEN_FILE response: %v", c, err))
-				ok = false
+				return false
 			}
+			return true
+		}
+		nchurn := 0
+		// pick READ_FILE or READ_FILE_CRITICAL for a request of n bytes at off
+		request := func(c int, n, off int64) bool {
+			x := cl[c]
+			x.plain = env.Rnd.Intn(2) == 0
+			op := opReadFileCritical
+			if x.plain {
+				op = opReadFile
+			}
+			q := &Req{Op: op, N: uint32(n), Off: uint64(off)}
+			x.c.SetDeadline(time.Now().Add(20 * time.Second))
+			if _, err := x.c.Write(q.Wire()); err != nil {
+				fail(fmt.Sprintf("[C12-slow] client %d: request refused: %v", c, err))
+				return false
+			}
+			x.pending, x.poff = n, off
+			return true
 		}
 		drain := func(c int) {
 			x := cl[c]
@@ -74,6 +94,21 @@ func runSlow(env *Env) error {
 			}
 			buf := make([]byte, x.pending)
 			x.c.SetDeadline(time.Now().Add(20 * time.Second))
+			if x.plain {
+				var hd [4]byte
+				if _, err := io.ReadFull(x.c, hd[:]); err != nil {
+					fail(fmt.Sprintf("[C12-slow] client %d: response cut short: %v", c, err))
+					ok = false
+					x.pending = 0
+					return
+				}
+				if cnt := int64(int32(uint32(hd[0])<<24 | uint32(hd[1])<<16 | uint32(hd[2])<<8 | uint32(hd[3]))); cnt != x.pending {
+					fail(fmt.Sprintf("[C12-slow] client %d asked for %d bytes of its own file at %d (all inside the file) while other clients came and went: the answer announces %d bytes", c, x.pending, x.poff, cnt))
+					ok = false
+					x.pending = 0
+					return
+				}
+			}
 			if _, err := io.ReadFull(x.c, buf); err != nil {
 				fail(fmt.Sprintf("[C12-slow] client %d: response cut short: %v", c, err))
 				ok = false
@@ -98,6 +133,9 @@ func runSlow(env *Env) error {
 			}
 			x.pending = 0
 		}
+		for c := 0; c < k && ok; c++ {
+			ok = connect(c)
+		}
 		rounds := 6 + env.Rnd.Intn(10)
 		nstalled := 0
 		for rd := 0; rd < rounds && ok; rd++ {
@@ -108,17 +146,27 @@ func runSlow(env *Env) error {
 				}
 				n := int64([]int{2048, 4096, 65536, 65535, 30000, 1, 65537, 100000}[env.Rnd.Intn(8)])
 				off := env.Rnd.Int63n(fsize - n)
-				q := &Req{Op: opReadFileCritical, N: uint32(n), Off: uint64(off)}
-				cl[c].c.SetDeadline(time.Now().Add(20 * time.Second))
-				if _, err := cl[c].c.Write(q.Wire()); err != nil {
-					fail(fmt.Sprintf("[C12-slow] client %d: request refused: %v", c, err))
+				if !request(c, n, off) {
 					ok = false
 					break
 				}
-				cl[c].pending, cl[c].poff = n, off
 				nstalled++
 			}
 			time.Sleep(300 * time.Microsecond) // let the server reach its blocked Write
+			// connection churn: one of the stalled clients reads a part of its answer, goes away and comes back on a new connection
+			if rd%3 == 1 {
+				for _, c := range env.Rnd.Perm(k) {
+					if x := cl[c]; ok && x.pending > 1 {
+						part := make([]byte, 1+env.Rnd.Int63n(min(x.pending-1, 9000)))
+						_, _ = io.ReadFull(x.c, part)
+						x.c.Close()
+						time.Sleep(300 * time.Microsecond)
+						ok = connect(c)
+						nchurn++
+						break
+					}
+				}
+			}
 			// the others are served in full meanwhile
 			for c := 0; c < k && ok; c++ {
 				if cl[c].pending != 0 {
@@ -127,12 +175,10 @@ func runSlow(env *Env) error {
 				for t := 0; t < 1+env.Rnd.Intn(3) && ok; t++ {
 					n := int64([]int{2048, 65536, 40000, 512}[env.Rnd.Intn(4)])
 					off := env.Rnd.Int63n(fsize - n)
-					q := &Req{Op: opReadFileCritical, N: uint32(n), Off: uint64(off)}
-					if _, err := cl[c].c.Write(q.Wire()); err != nil {
+					if !request(c, n, off) {
 						ok = false
 						break
 					}
-					cl[c].pending, cl[c].poff = n, off
 					drain(c)
 				}
 			}
@@ -150,9 +196,9 @@ func runSlow(env *Env) error {
 		}
 		ls.Stop()
 		runtime.GOMAXPROCS(old)
-		env.Case(id, "NOMODEL", []string{fmt.Sprintf("%d clients, %d rounds, %d stalled responses, GOMAXPROCS %d", k, rounds, nstalled, procs)}, fmt.Sprintf("ok=%v", ok), true)
+		env.Case(id, "NOMODEL", []string{fmt.Sprintf("%d clients, %d rounds, %d stalled responses, %d clients replaced in mid-answer, GOMAXPROCS %d", k, rounds, nstalled, nchurn, procs)}, fmt.Sprintf("ok=%v", ok), true)
 		if i < 2 {
-			env.Sample(map[string]any{"id": id, "clients": k, "rounds": rounds, "stalled_responses": nstalled, "gomaxprocs": procs})
+			env.Sample(map[string]any{"id": id, "clients": k, "rounds": rounds, "stalled_responses": nstalled, "replaced_mid_answer": nchurn, "gomaxprocs": procs})
 		}
 		env.Count("clients", fmt.Sprint(k))
 		env.Count("gomaxprocs", fmt.Sprint(procs))
